@@ -278,6 +278,12 @@ func minerGovOps() []OpDef {
 					b := mnBadSettings[r.Intn(len(mnBadSettings))]
 					fields[b.K] = b.V
 				}
+				if r.Chance(0.6) {
+					// a valid cost entry in front of the entry that makes the call fail: the cost table is a map inside the
+					// settings node, nothing of it may stick
+					c := [][2]string{{"cost.add_miner", "77"}, {"cost.add_sharder", "78"}, {"cost.addtodelegatepool", "3"}, {"cost.collect_reward", "4"}}[r.Intn(4)]
+					fields[c[0]] = c[1]
+				}
 				mut = "bad-entries"
 			case 3: // only bad entries
 				fields = map[string]string{}
